@@ -97,6 +97,12 @@ def _alternatives(value):
     if isinstance(value, tuple) and value and all(
             isinstance(v, (int, np.integer)) for v in value):
         return [value[::-1], tuple(v + 1 for v in value)]
+    from pytato.distributed.nodes import DistributedSend
+    if isinstance(value, DistributedSend):
+        return [dataclasses.replace(value, dest_rank=value.dest_rank + 1),
+                dataclasses.replace(value, comm_tag=(value.comm_tag, "x")),
+                dataclasses.replace(value, data=pt.make_placeholder(
+                    "other_payload", value.data.shape, value.data.dtype))]
     if isinstance(value, Array):
         return [pt.make_placeholder("other", value.shape, value.dtype)]
     if isinstance(value, (constantdict, dict)) and value:
